@@ -4,6 +4,7 @@ exception at the N-th."""
 import linecache
 import os
 import sys
+import threading
 
 
 def _is_noop_line(frame):
@@ -52,11 +53,16 @@ class TraceFault:
 
     def __enter__(self):
         self._old = sys.gettrace()
+        # threads the program starts while the fault is armed are traced too: an allocation failure can hit a worker
+        # thread as well as the main one (and an exception raised there is the program's to bring home)
+        self._old_threading = getattr(threading, "_trace_hook", None)
+        threading.settrace(self._global)
         sys.settrace(self._global)
         return self
 
     def __exit__(self, *a):
         sys.settrace(self._old)
+        threading.settrace(self._old_threading)
         return False
 
 
